@@ -133,10 +133,13 @@ def pad_to_bar(ctx, rule='PAD/next-bar-line'):
       why = why if ps is None else 'cannot classify: %s does not end with self.set_length(<length>) after straight-line statements' % fi.qualname
       ctx.ob(rule, fi, fi.node, False, why, construct=cons, unknown=why)
       continue
+    # the bar length is the one free local of the length expressions (whatever it is called)
+    free = set(n_.id for _c, a_ in args for n_ in ast.walk(a_) if isinstance(n_, ast.Name) and n_.id not in ('len', 'self', 'pad_end', 'int', 'max', 'min', 'abs'))
+    bar_name = free.pop() if len(free) == 1 else 'steps_per_bar'
     for pad in (1, 0):
       for L in (0, 1, 15, 16, 17, 32, 33):
         want = -(-L // 16) * 16 if pad else L
-        sub = {'len(self)': nf.rat(E(str(L))), 'len(self._events)': nf.rat(E(str(L))), 'steps_per_bar': nf.rat(E('16')), 'pad_end': nf.rat(E(str(pad)))}
+        sub = {'len(self)': nf.rat(E(str(L))), 'len(self._events)': nf.rat(E(str(L))), bar_name: nf.rat(E('16')), 'pad_end': nf.rat(E(str(pad)))}
         got, stuck = None, None
         for conds, arg in args:
           vs = [scenario.fold_numeric(t, sub, dyadic=True) for t, _p in conds]
@@ -724,7 +727,9 @@ def metric_limit(ctx, rule='SHIFT/metric-limit'):
     except nf.NFError:
       ok = False
     # located whatever the arrangement: a limit whose formula does not mention max_shift_quarters ignores the constructor's argument
-    blind = form is not None and not ok and 'max_shift_quarters' not in form.atoms()
+    # ... provided the formula was read to the end: an atom that is a local of the constructor (assigned on more than one path, say) hides what it stands for
+    local_names = set(t_.id for s_ in U.walk_stmts(fi.node) for t_, _v, _o in U.store_targets(s_) if isinstance(t_, ast.Name)) - set(fi.params())
+    blind = form is not None and not ok and 'max_shift_quarters' not in form.atoms() and not (set(form.atoms()) & local_names)
     ctx.ob(rule, fi, c, ok, 'max_shift_steps = steps_per_quarter * max_shift_quarters' if ok else
            ('max_shift_steps is %s here, which does not depend on max_shift_quarters: with another value than the default, extracted shifts and the reported limit disagree' % norm_text(vx) if blind else
             'max_shift_steps is %s here, not steps_per_quarter * max_shift_quarters: extracted shifts and the reported limit disagree' % norm_text(v)),
@@ -795,3 +800,4 @@ RENAME_FUNCS = [(PL, 'BasePerformance._from_quantized_sequence'), (ML, 'Melody.f
 
 EXPLANATION += (' Shared with C06 / C09 for the performance renderers: GRID, ORIGIN/start-step-once, RENDER/note-off-ends-one, VEL/bin-size.' + ' Location-independent additions: ROLL/gap-index-in-range (a store into row O-1 needs 0 < O; found F26), ROLL/pitch-range-inclusive (boundary scenarios pitch == min/max +-1), CHORD/previous-step (a carried step is never a clamped constant), MEL/gap-bar-length, DRUM/gap normal form.')
 EXPLANATION += (' Round 7: ' + 'PITFALL/falsy-domain-zero over the extractor modules; CHORD/symbols-all-read and the performance renderer rules shared with C06 / C09.')
+EXPLANATION += (' Rounds 9-10: ' + 'PAD/next-bar-line (closing block of Melody / DrumTrack extraction evaluated on seven lengths); PITFALL/unforwarded-parameter, PITFALL/dead-parameter.')
